@@ -401,6 +401,7 @@ def run(pid, extra=None):
                         r.violation("%s:two-receivers" % sig, "two delivering threads, one delivery answered from within, random schedule: %s" % desc, {"jobs": "two-receivers", "schedule_tail": tail})
             write_across_reconnect(r)
             write_raises_then_reconnect(r)
+            asyncore_flush_race(r, rng, 200 if thorough else 40)
     finally:
         roots.close()
     if extra is not None:
@@ -746,3 +747,105 @@ def relevant(pid, sig):
     if pid == "C11":
         return sig.startswith("wire:") or sig == "wedged"
     return True
+
+
+def asyncore_flush_race(r, rng, n=40):
+    """The default (asyncore) dispatcher's send buffer is flushed by whoever gets there: the sending thread itself (sendData) and the
+    thread that serves the connection (handle_write, when the socket could not take everything at once).  Real AsyncoreConnectionDispatcher,
+    a socket double that takes a limited number of bytes per call and is a preemption point (the real send() releases the interpreter lock),
+    2-3 sender threads and the serving thread under the deterministic scheduler, PCT-random schedules.  The bytes reaching the socket are
+    the chunks handed to sendData, each whole and exactly once, those of one sender in its order."""
+    import threading as _threading
+    import yowsup.layers.network.dispatcher.dispatcher_asyncore as DA
+    from yowsup.layers.network.dispatcher.dispatcher import ConnectionCallbacks
+
+    class CB(ConnectionCallbacks):
+        pass
+    for k in range(n):
+        s = sched.Scheduler()
+        saved = getattr(DA, "threading", None)
+        if saved is not None:
+            DA.threading = sched.shim_module(_threading, Lock=lambda: s.Lock(), RLock=lambda: s.RLock())
+        wire = bytearray()
+        cap = rng.choice([3, 5, 8, 64])
+
+        class Sock(object):
+            def send(self, data):
+                s.yield_point(("sock.send", len(data)))
+                take = bytes(data[:cap])
+                wire.extend(take)
+                return len(take)
+
+            def setblocking(self, x):
+                pass
+
+            def fileno(self):
+                return -1
+
+            def close(self):
+                pass
+        try:
+            d = DA.AsyncoreConnectionDispatcher(CB())
+            d.socket = Sock()
+            d.connected = True
+            d._connected = True
+            senders = rng.choice([1, 2, 3])
+            chunks = {}
+            for si in range(senders):
+                chunks["s%d" % si] = [bytes([65 + si]) + bytes([48 + j]) * rng.randint(2, 9) + b"." for j in range(rng.randint(1, 3))]
+            done = {"n": 0}
+
+            def sender(name):
+                for c in chunks[name]:
+                    d.sendData(c)
+                done["n"] += 1
+
+            def server():
+                # the serving thread: flushes while there is something to flush, until every sender is done and the buffer is empty
+                while True:
+                    if len(d.out_buffer):
+                        d.handle_write()
+                    elif done["n"] == senders:
+                        return
+                    else:
+                        s.wait_until("work", lambda: len(d.out_buffer) or done["n"] == senders)
+            for name in sorted(chunks):
+                s.spawn(name, lambda name=name: sender(name))
+            s.spawn("loop", server)
+            prio = {t.name: rng.random() for t in s.threads}
+            changes = set(rng.sample(range(1, 40), 4))
+            st = {"n": 0}
+
+            def chooser(rr, sc):
+                st["n"] += 1
+                if st["n"] in changes:
+                    prio[rng.choice(sorted(prio))] = rng.random()
+                return max(rr, key=lambda t: prio.get(t.name, 0))
+            r.case(("asyncore-flush", k, rng.random()))
+            r.cov["traces_validated_against_impl"] += 1
+            try:
+                s.run(chooser, 20000)
+            except sched.Deadlock as e:
+                r.violation("wedged:asyncore-flush", "senders and the serving thread flushing the asyncore dispatcher's buffer: %s" % e, {"chunks": {a: [c.decode() for c in b] for a, b in chunks.items()}})
+                continue
+            errs = [t.error for t in s.threads if t.error]
+            # oracle: the wire splits into whole chunks, each chunk once, per sender in order
+            rest = bytes(wire)
+            got = []
+            while rest:
+                j = rest.find(b".")
+                if j < 0:
+                    got.append(rest)
+                    break
+                got.append(rest[:j + 1])
+                rest = rest[j + 1:]
+            want = sorted(c for cs in chunks.values() for c in cs)
+            per_sender_ok = all([g for g in got if g[:1] == cs[0][:1]] == cs for cs in chunks.values())
+            if errs or sorted(got) != want or not per_sender_ok:
+                r.violation("stream:asyncore-flush", "chunks handed to the asyncore dispatcher %s (socket takes %d bytes per call); bytes reaching the socket %r%s; schedule tail %s" % (
+                    {a: [c.decode() for c in b] for a, b in chunks.items()}, cap, bytes(wire), (" errors %r" % errs) if errs else "", s.trace[-14:]),
+                    {"chunks": {a: [c.decode() for c in b] for a, b in chunks.items()}, "cap": cap})
+        finally:
+            if saved is not None:
+                DA.threading = saved
+            s.kill()
